@@ -60,6 +60,7 @@ struct Sched {
   int pct_d = 2;                  // POL_PCT: number of priority change points
   uint64_t pct_horizon = 20000;   // POL_PCT: change points drawn in [0,horizon)
   int rr_q = 1;                   // POL_RR: quantum
+  bool event_points = false;      // are packet/task events scheduling points
   bool plain_points = true;       // are the optional plain-read points active
   // liveness: a run is declared non-terminating when `budget` scheduling
   // points pass without any global progress event (the second half of them
